@@ -110,6 +110,8 @@ def tree_hash(extra=()):
             dn.sort()
             if '__pycache__' in dp or (root == here and dp != here):
                 continue        # property drivers under pyvc/props do not influence the shared sweep
+            if root == here:
+                fn = [f for f in fn if f in ENGINE_FILES]
             for f in sorted(fn):
                 if f.endswith(('.py', '.dat', '.wsgi', '.html', '.lean')):
                     p = os.path.join(dp, f)
@@ -120,6 +122,11 @@ def tree_hash(extra=()):
         h.update(repr(e).encode())
     h.update(sys.version.encode())
     return h.hexdigest()
+
+
+# the files a sweep result depends on (reporting, pooling and the CLI do not influence it)
+ENGINE_FILES = {'isets.py', 'sym.py', 'ctx.py', 'regex.py', 'strops.py', 'absstr.py', 'methods.py', 'builtins_.py', 'interp.py', 'front.py',
+                'explore.py', 'sweep.py', 'replay.py', 'contracts_core.py', 'corpus.py'}
 
 
 def source_of(node):
